@@ -13,6 +13,10 @@ import (
 var table = map[string]func(props.Cfg) int{
 	"C01": props.C01,
 	"C02": props.C02,
+	"C04": props.C04,
+	"C05": props.C05,
+	"C08": props.C08,
+	"C09": props.C09,
 }
 
 func main() {
